@@ -226,7 +226,7 @@ def lit_value(word, k1=False):
         neg, ip, fp, ex, suf = m.group(1) == b"-", m.group(2), m.group(3), m.group(4), m.group(5)
         if fp is None and ex is None and suf == b"":
             raise NotGrammar("integer with leading zero / not C99: %r" % word)
-        if abs(int(ex or 0)) > 60 or len(ip) + len(fp or b"") > 40:
+        if abs(int(ex or 0)) > 400 or len(ip) + len(fp or b"") > 40:
             raise NotGrammar("extreme literal")
         x = Fraction(int(ip + (fp or b""), 10)) * Fraction(10) ** (int(ex or 0) - len(fp or b""))
     if suf == b"d":
@@ -246,6 +246,7 @@ class Reader:
         self.n = len(text)
         self.k1 = k1
         self.k1_words = 0          # literals on which the two readings differ
+        self.k2_words = 0          # numeric literals directly followed by '%' (finding C11-K2)
 
     def ws(self, p):
         while p < self.n and self.t[p] in WS:
@@ -262,7 +263,9 @@ class Reader:
                 return p
 
     def word_end(self, p):
-        while p < self.n and self.t[p] not in WS and self.t[p] not in b")]" and self.t[p:p + 3] != b"...":
+        # "Comments are introduced with a percent sign": a '%' ends a numeric word like white space does
+        # (the code does not end the word there: known finding C11-K2)
+        while p < self.n and self.t[p] not in WS and self.t[p] not in b")]%" and self.t[p:p + 3] != b"...":
             p += 1
         return p
 
@@ -367,6 +370,8 @@ class Reader:
         if e == p:
             raise NotGrammar("value expected")
         word = self.t[p:e]
+        if e < self.n and self.t[e] == 37:
+            self.k2_words += 1
         if re.match(rb"[0-9]{4}-[0-9]{2}-[0-9]{2}", word):
             raise NotGrammar("dates are not part of the grammar read here")
         cell = lit_value(word, self.k1)
@@ -433,8 +438,9 @@ class Reader:
                 q = q2
             else:
                 out.append(it)
-            # values are separated by white space (or a comment behind white space); ']' may follow directly
-            if q < self.n and self.t[q] not in WS and not (in_array and self.t[q] == 93):
+            # values are separated by white space or a comment ("true%false" with the comment "%false" is one of
+            # upstream's own tests: "comment right after true"); ']' may follow directly
+            if q < self.n and self.t[q] not in WS and not (in_array and self.t[q] == 93) and not (not in_array and self.t[q] == 37):
                 raise NotGrammar("values not separated")
             p = q
 
@@ -602,6 +608,17 @@ def read_text(text, k1=False):
         return None
 
 
+def k2_trigger(text):
+    """finding C11-K2: the text has a numeric literal that is directly followed by '%' (counted by the reference
+    reader while it reads the text)"""
+    r = Reader(text)
+    try:
+        r.items(0, False)
+    except NotGrammar:
+        pass
+    return r.k2_words > 0
+
+
 def k1_trigger(text):
     """finding C11-K1: the text has an unsuffixed integer literal with a leading zero whose octal and decimal
     readings differ (counted by the reference reader while it reads the text as the manual says)"""
@@ -632,6 +649,10 @@ def cell_str(c):
         return "%s:%s" % (k, c[1].hex() if c[1] else "-")
     if k == 'b':
         return "b:%s" % (c[1].hex() if c[1] else "-")
+    if k == 'T':
+        return "T1"               # type 'T' carries val.T == 1, 'F' carries 0 (rtosc.h: "F=>0, T=>1")
+    if k == 'F':
+        return "F0"
     return k
 
 
@@ -718,7 +739,9 @@ def tok_cell(t):
         return ('m', v >> 24, (v >> 16) & 255, (v >> 8) & 255, v & 255)
     if k in "sSb" and t[1:2] == ':':
         return (k, b"" if t[2:] == "-" else bytes.fromhex(t[2:]))
-    if t in ("T", "F", "N", "I"):
+    if t in ("T1", "F0"):
+        return (t[0],)
+    if t in ("N", "I"):
         return (t,)
     raise ValueError(t)
 
@@ -789,7 +812,7 @@ def values_equal(a, b, tol):
     return True
 
 
-RE_OUT = re.compile(r"^C (-?\d+)(?: W (\d+) R (\d+)/(\d+) V((?: \S+)*?)(?: P (\S+) C2 (-?\d+)(?: W2 (\d+) R2 (\d+)/(\d+) V2((?: \S+)*))?)?)?$")
+RE_OUT = re.compile(r"^C (-?\d+)(?: W (\d+) R (\d+)/(\d+) V((?: \S+)*?)(?: P C2 (-?\d+)(?: W2 (\d+) R2 (\d+)/(\d+) V2((?: \S+)*))?)?)?$")
 
 
 def parse_out(out):
@@ -802,9 +825,9 @@ def parse_out(out):
     if g[1] is not None:
         d.update(written=int(g[1]), rd=int(g[2]), len=int(g[3]), cells=g[4].split())
     if g[5] is not None:
-        d.update(text2=g[5], count2=int(g[6]))
-    if g[7] is not None:
-        d.update(written2=int(g[7]), rd2=int(g[8]), len2=int(g[9]), cells2=g[10].split())
+        d.update(count2=int(g[5]))
+    if g[6] is not None:
+        d.update(written2=int(g[6]), rd2=int(g[7]), len2=int(g[8]), cells2=g[9].split())
     return d
 
 
@@ -837,7 +860,15 @@ def check_one(text, d, what, k1=False):
     return None
 
 
-def oracle(op, impl_out, k1=False):
+def is_ns(op):
+    return "ns" in op.split()[1:]
+
+
+def oracle(op, impl_out, k1=False, k2=False):
+    """k1 / k2: evaluate under the reading of the known findings C11-K1 (an unsuffixed literal with a leading zero is
+    decimal) / C11-K2 (a text with a numeric literal directly followed by '%' is rejected)"""
+    if is_ns(op):
+        return None                       # marked as lying outside the grammar: nothing is demanded
     text, alt = op_texts(op)
     ref = read_text(text, k1)
     if ref is None:
@@ -848,60 +879,88 @@ def oracle(op, impl_out, k1=False):
     d = parse_out(parts[0])
     if d is None:
         return "unreadable output: " + impl_out[:200]
-    if "written" not in d:
-        return "the checker rejects a sentence of the grammar (count %d)" % d["count"]
-    f = check_one(text, d, "text", k1)
-    if f:
-        return f
-    # print + scan again: equal values
-    if "text2" not in d:
-        return "no print/rescan part in the output"
-    if "written2" not in d:
-        return "the checker rejects the printed form of the scanned values (count %d)" % d["count2"]
-    if d["written2"] != d["count2"] or d["rd2"] != d["len2"]:
-        return "printed form: checker %d, scanner wrote %d, consumed %d of %d" % (d["count2"], d["written2"], d["rd2"], d["len2"])
-    a, b = parse_cells(d["cells"]), parse_cells(d["cells2"])
-    if a is None or b is None:
-        return "scanned cells do not form a value list"
-    tol = Fraction(1, 1000) if has_float_range(ref) else None
-    if not values_equal(expand(a), expand(b), tol):
-        return "scan(print(scan text)) differs from scan text: %s vs %s" % (" ".join(d["cells"])[:200], " ".join(d["cells2"])[:200])
+    t_k2 = k2 and k2_trigger(text)
+    if t_k2:
+        if d["count"] >= 0:
+            return "reading of C11-K2: a text with a numeric literal directly followed by '%' is not rejected"
+    else:
+        if "written" not in d:
+            return "the checker rejects a sentence of the grammar (count %d)" % d["count"]
+        f = check_one(text, d, "text", k1)
+        if f:
+            return f
+        # print + scan again: equal values
+        if "count2" not in d:
+            return "no print/rescan part in the output"
+        if "written2" not in d:
+            return "the checker rejects the printed form of the scanned values (count %d)" % d["count2"]
+        if d["written2"] != d["count2"] or d["rd2"] != d["len2"]:
+            return "printed form: checker %d, scanner wrote %d, consumed %d of %d" % (d["count2"], d["written2"], d["rd2"], d["len2"])
+        a, b = parse_cells(d["cells"]), parse_cells(d["cells2"])
+        if a is None or b is None:
+            return "scanned cells do not form a value list"
+        tol = Fraction(1, 1000) if has_float_range(ref) else None
+        if not values_equal(expand(a), expand(b), tol):
+            return "scan(print(scan text)) differs from scan text: %s vs %s" % (" ".join(d["cells"])[:200], " ".join(d["cells2"])[:200])
     # a second rendering of the same choices scans to the same cells
     if alt is not None:
         if len(parts) < 2:
             return "no output for the second rendering"
         d2 = parse_out(parts[1])
-        if d2 is None or "written" not in d2:
-            return "second rendering: the checker rejects it (%s)" % parts[1][:100]
+        if d2 is None:
+            return "second rendering: unreadable output (%s)" % parts[1][:100]
         if read_text(alt, k1) is None:
             return None
+        if k2 and k2_trigger(alt):
+            if d2["count"] >= 0:
+                return "reading of C11-K2: second rendering with a numeric literal directly followed by '%' is not rejected"
+            return None
+        if "written" not in d2:
+            return "second rendering: the checker rejects it (%s)" % parts[1][:100]
         f = check_one(alt, d2, "second rendering", k1)
         if f:
             return f
-        if d2["cells"] != d["cells"] and not has_float_range(ref):
+        if not t_k2 and d2["cells"] != d["cells"] and not has_float_range(ref):
             return "two renderings of the same choices scan differently: %s vs %s" % (" ".join(d["cells"])[:200], " ".join(d2["cells"])[:200])
     return None
 
 
 def known(op, impl_out, model_out, defs):
     """C11-K1: an unsuffixed integer literal with a leading zero ("077") is read as decimal, although the manual
-    (C99 rules) and the suffixed forms "077i" / "077h" read it as octal.  An input is attributed to the finding
-    only if (1) the trigger holds: the text (or its second rendering) contains such a literal, (2) the
-    implementation's output is what the defect-mirroring model predicts, and (3) every clause of the property holds
-    for the output when the literal is read the way the code reads it."""
-    if not any(e.get("id") == "C11-K1" for e in defs):
+    (C99 rules) and the suffixed forms "077i" / "077h" read it as octal.
+    C11-K2: a numeric literal directly followed by a comment ("42%c") is rejected, although every other kind of
+    value may be followed by '%' directly ("true%c").
+    An input is attributed to a finding only if (1) its trigger holds for the text (or its second rendering),
+    (2) the implementation's output is what the defect-mirroring model predicts, and (3) every clause of the
+    property holds for the output under the reading of the finding (K1: the literal is decimal; K2: the text with the
+    trigger is rejected, a rendering without it is read in full)."""
+    if is_ns(op):
         return None
+    ids = set(e.get("id") for e in defs)
     text, alt = op_texts(op)
-    if not (k1_trigger(text) or (alt is not None and k1_trigger(alt))):
+    texts = [text] + ([alt] if alt is not None else [])
+    t1 = "C11-K1" in ids and any(k1_trigger(t) for t in texts)
+    t2 = "C11-K2" in ids and any(k2_trigger(t) for t in texts)
+    if not (t1 or t2):
         return None
+    if oracle(op, impl_out) is None:
+        # the trigger holds but the implementation's answer satisfies every clause under the manual's reading (the
+        # defect has been repaired in this tree): only the defect-mirroring model differs, no alarm
+        return "C11-K2" if t2 else "C11-K1"
     if model_out is not None and model_out != impl_out:
         return None
-    if oracle(op, impl_out, k1=True) is not None:
-        return None
-    return "C11-K1"
+    if t2 and not t1:
+        return "C11-K2" if oracle(op, impl_out, k2=True) is None else None
+    if t1 and not t2:
+        return "C11-K1" if oracle(op, impl_out, k1=True) is None else None
+    if oracle(op, impl_out, k1=True, k2=True) is None:
+        return "C11-K2" if oracle(op, impl_out, k1=True) is not None else "C11-K1"
+    return None
 
 
 def nontrivial(op):
+    if is_ns(op):
+        return False
     text, _ = op_texts(op)
     ref = read_text(text)
     if ref is None:
@@ -941,6 +1000,8 @@ def sp_int(rng, v, suffix, stats):
         body = "0x" + (("%X" if rng.random() < 0.3 else "%x") % mag)
         if rng.random() < 0.1:
             body = "0x" + "0" * rng.randint(1, 2) + body[2:]
+        if rng.random() < 0.1:
+            body = "0X" + body[2:]
     else:
         body = "0" + "%o" % mag
     return (sign + body + suffix).encode()
@@ -962,7 +1023,8 @@ def g_float_lit(rng, dbl, stats, exact_ok=True):
     if form == "point":
         s = neg + ip + "." + fp + suf
     elif form == "exp":
-        e = rng.choice(["e", "E"]) + rng.choice(["", "+", "-"]) + str(rng.randint(0, 12 if not dbl else 30))
+        e = rng.choice(["e", "E"]) + rng.choice(["", "+", "-"]) + str(
+            rng.randint(0, 12 if not dbl else 30) if rng.random() < 0.7 else rng.randint(0, 46 if not dbl else 325))
         s = neg + ip + (("." + fp) if rng.random() < 0.5 else "") + e + suf
     elif form == "suffix":
         s = neg + ip + rng.choice(["", "." + fp]) + ("d" if dbl else "f")
@@ -1003,8 +1065,18 @@ def g_ident(rng):
     return w.encode()
 
 
+def g_symword(rng):
+    """content of a quoted symbol that is shaped like a bare word: reserved words, identifiers, near misses"""
+    r = rng.random()
+    if r < 0.5:
+        return rng.choice(sorted(RESERVED))
+    if r < 0.8:
+        return rng.choice(WORDS).encode()
+    return rng.choice([b"True", b"NOW", b"nil ", b"1", b"1x", b"0x1", b"a-b", b"inf.", b"midi", b"Blob", b"x.y", b"_1", b"9a"])
+
+
 def g_strbytes(rng):
-    n = rng.choice([0, 1, 2, 3, 5, 8, 12, 20])
+    n = rng.choice([0, 1, 2, 3, 5, 8, 12, 20, 20, rng.randint(21, 70), rng.randint(70, 200)])
     out = bytearray()
     for _ in range(n):
         r = rng.random()
@@ -1022,7 +1094,7 @@ UNESC = {7: 'a', 8: 'b', 9: 't', 10: 'n', 11: 'v', 12: 'f', 13: 'r', 92: '\\'}
 
 def sp_string(rng, s, sym, stats):
     """tokens of a (possibly concatenated) string: list of (bytes, boundary-kind-behind)"""
-    nparts = 1 if len(s) < 2 or rng.random() < 0.6 else rng.randint(2, 3)
+    nparts = 1 if len(s) < 2 or rng.random() < 0.6 else min(rng.choice([2, 2, 3, 3, 4, 6]), len(s) + 1)
     cuts = sorted(rng.sample(range(len(s) + 1), nparts - 1)) if nparts > 1 else []
     stats["str_parts_%d" % nparts] = stats.get("str_parts_%d" % nparts, 0) + 1
     parts = []
@@ -1077,8 +1149,14 @@ def g_scalar(rng, stats, kinds=None):
     if k == "s":
         return "s", sp_string(rng, g_strbytes(rng), False, stats)
     if k == "S":
-        if rng.random() < 0.5:
+        r = rng.random()
+        if r < 0.45:
             return "S", [(g_ident(rng), "end")]
+        if r < 0.7:
+            # a quoted symbol whose content looks like a bare word: the printer must keep the quotes for the
+            # reserved words and may drop them for identifiers
+            stats["sym_quoted_word"] = stats.get("sym_quoted_word", 0) + 1
+            return "S", sp_string(rng, g_symword(rng), True, stats)
         return "S", sp_string(rng, g_strbytes(rng), True, stats)
     if k == "k":
         w = rng.choice(["true", "false", "nil", "inf"])
@@ -1088,7 +1166,7 @@ def g_scalar(rng, stats, kinds=None):
     if k == "r":
         return "r", [(b"#" + (("%08X" if rng.random() < 0.3 else "%08x") % rng.getrandbits(32)).encode(), "end")]
     if k == "b":
-        n = rng.choice([0, 1, 2, 3, 6])
+        n = rng.choice([0, 1, 2, 3, 6, 7, 8, rng.randint(9, 40)])
         toks = [(b"BLOB", "opt"), (b"[", "opt"), (b"%d" % n, "sep" if n else "opt")]
         for j in range(n):
             toks.append(((b"0x%02x" if rng.random() < 0.7 else b"0x%X") % rng.getrandbits(8), "sep" if j + 1 < n else "opt"))
@@ -1105,6 +1183,8 @@ def g_num_of(rng, ty, stats, v=None):
     if ty == "h":
         return [(sp_int(rng, v, "h", stats), "end")]
     if ty == "c":
+        if v == 39:
+            return [(b"'\\''", "end")]
         return [(b"'" + bytes([v]) + b"'", "end")]
     return [((v + ("d" if ty == "d" else "")).encode(), "end")]
 
@@ -1119,6 +1199,85 @@ def dec_str(x, places=4):
     if s.endswith("."):
         s += "0"
     return ("-" if neg else "") + s
+
+
+def g_mult(rng):
+    """the n of nxA"""
+    r = rng.random()
+    if r < 0.6:
+        return rng.choice([1, 2, 3, 4, 5, 7, 10, 99, 1000, 2 ** 31 - 1])
+    if r < 0.9:
+        return rng.randint(1, 300)
+    return rng.randint(1, 2 ** 31 - 1)
+
+
+def g_run(rng, stats):
+    """5..10 explicitly written values the printer may compress: an arithmetic progression of c / i / h values
+    (steps incl. 0 and negative ones, spans beyond the width of the type), or one scalar written n times;
+    optionally preceded by one more value of the type.  Returns a list of items (token lists)."""
+    n = rng.randint(5, 10)
+    r = rng.random()
+    items = []
+    if r < 0.7:
+        ty = rng.choice("iiihhc")
+        stats["run_" + ty] = stats.get("run_" + ty, 0) + 1
+        if ty == "c":
+            d = rng.choice([0, 1, 1, -1, 2, -2, 3])
+            lo, hi = 40, 126
+            b = rng.randint(lo, hi)
+            vals = [b + k * d for k in range(n)]
+            if not all(lo <= v <= hi and v != 92 for v in vals):
+                d = 1
+                vals = [97 + k for k in range(n)]
+            if rng.random() < 0.4:
+                vals = [rng.choice([vals[0], vals[0] - d if lo <= vals[0] - d <= hi and vals[0] - d != 92 else 65, 65])] + vals
+        else:
+            lim = 2 ** 31 if ty == "i" else 2 ** 63
+            q = rng.random()
+            if q < 0.3:
+                # first-to-last distance beyond the width of the type
+                stats["run_wide"] = stats.get("run_wide", 0) + 1
+                d = (2 * lim - 1 - rng.randint(2000, 6000)) // (n - 1) - rng.randint(0, 1000)
+                b = -lim + rng.randint(0, 1000)
+                if rng.random() < 0.5:
+                    b, d = b + (n - 1) * d, -d
+            elif q < 0.45:
+                # at the edge of the type
+                d = rng.choice([1, -1, 2, -3, 1000, -(2 ** 20)])
+                b = (lim - 1 - (n - 1) * d) if d > 0 else (-lim - (n - 1) * d)
+            else:
+                d = rng.choice([0, 1, 1, -1, -1, 2, -2, 3, -5, 7, 10, 100, -1000, rng.randint(-10 ** 6, 10 ** 6),
+                                rng.randint(-lim // 8, lim // 8)])
+                b = rng.randint(-1000, 1000) if rng.random() < 0.7 else rng.randint(-lim // 4, lim // 4)
+            vals = [b + k * d for k in range(n)]
+            if not all(-lim <= v < lim for v in vals):
+                d = d // 16
+                b = b // 2
+                vals = [b + k * d for k in range(n)]
+            assert all(-lim <= v < lim for v in vals)
+            if rng.random() < 0.4:
+                # one more value of the type in front: equal to the first one, one step before it, or unrelated
+                p = rng.choice([vals[0], vals[0] - d, rng.randint(-50, 50)])
+                if -lim <= p < lim:
+                    vals = [p] + vals
+            if rng.random() < 0.25:
+                # the run goes on with another step
+                d2 = rng.choice([1, -1, 2, d + 1])
+                more = [vals[-1] + (k + 1) * d2 for k in range(rng.randint(1, 6))]
+                if all(-lim <= v < lim for v in more):
+                    vals += more
+        for v in vals:
+            items.append(g_num_of(rng, ty, stats, v))
+    else:
+        kind = rng.choice("ifdcsSktrmbh")
+        stats["run_const_" + kind] = stats.get("run_const_" + kind, 0) + 1
+        _, t = g_scalar(rng, stats, kind)
+        for k in range(n):
+            if kind == "k" and rng.random() < 0.3:
+                _, t = g_scalar(rng, stats, kind)      # true / false mixed
+            items.append(list(t))
+    stats["run"] = stats.get("run", 0) + 1
+    return items
 
 
 def g_range(rng, stats, open_end):
@@ -1198,8 +1357,14 @@ def g_array(rng, stats, depth):
                 elems.append(t_b2[:-1] + [(t_b2[-1][0], "dots"), (b"...", "opt")] + g_num_of(rng, ty, stats, b2 + n2 * d2))
         elif c is not None and ty in "ihc" and rng.random() < 0.4:
             elems.append(g_num_of(rng, ty, stats, rng.randint(40, 90)))
-    elif r < 0.4 and depth < 1 and n:
-        for _ in range(min(n, 3)):
+    elif r < 0.36 and n:
+        # explicitly written runs (the printer compresses them inside the array)
+        elems = g_run(rng, stats)
+        stats["array_run"] = stats.get("array_run", 0) + 1
+    elif r < 0.46 and depth < 3 and n and (depth < 1 or rng.random() < 0.5):
+        if depth >= 1:
+            stats["array_depth_%d" % (depth + 1)] = stats.get("array_depth_%d" % (depth + 1), 0) + 1
+        for _ in range(min(n, 3 if depth < 1 else 2)):
             elems.append(g_array(rng, stats, depth + 1))
         if rng.random() < 0.2:
             elems[-1] = elems[-1][:-1] + [(b"]", "dots"), (b"...", "end")]
@@ -1209,7 +1374,7 @@ def g_array(rng, stats, depth):
         for j in range(n):
             _, t = g_scalar(rng, stats, kind)
             if rng.random() < 0.15:
-                t = [(b"%dx" % rng.choice([1, 2, 3, 5, 10, 1000]), "glue")] + t
+                t = [(b"%dx" % g_mult(rng), "glue")] + t
                 stats["array_rep"] = stats.get("array_rep", 0) + 1
             elems.append(t)
         if n and kind in "sSktrmib" and rng.random() < 0.25 and elems[-1][0][1] != "glue":
@@ -1231,13 +1396,15 @@ def g_sentence(rng, stats):
     items = []
     while len(items) < n:
         r = rng.random()
-        if r < 0.62:
+        if r < 0.08:
+            items += g_run(rng, stats)
+        elif r < 0.62:
             _, t = g_scalar(rng, stats)
             items.append(t)
         elif r < 0.72:
             # NxA
             stats["rep"] = stats.get("rep", 0) + 1
-            mult = b"%dx" % rng.choice([1, 2, 3, 4, 5, 7, 10, 99, 1000, 2 ** 31 - 1])
+            mult = b"%dx" % g_mult(rng)
             if rng.random() < 0.3:
                 t = g_array(rng, stats, 1)
             else:
@@ -1271,6 +1438,26 @@ def g_ins(rng, comments, stats):
     return out
 
 
+def is_num_word(tok):
+    return bool(RE_INT.match(tok) or RE_DECF.match(tok) or RE_HEXF.match(tok))
+
+
+def sep_ins(rng, stats, canonical=False, adjacent=1.0):
+    """the text between two top-level values; `adjacent` scales the probability of a comment directly behind the
+    value (behind a numeric literal that is known finding C11-K2: generated, but less often)"""
+    if canonical:
+        return b" "
+    g = g_ins(rng, True, stats)
+    if g[:1] == b"%" and rng.random() < 0.4 * adjacent:
+        stats["comment_adjacent"] = stats.get("comment_adjacent", 0) + 1
+        return g
+    if rng.random() < 0.12 * adjacent:
+        # a comment right behind the value, whatever else follows
+        stats["comment_adjacent"] = stats.get("comment_adjacent", 0) + 1
+        return rng.choice(COMMENTS) + b"\n" + g
+    return rng.choice(WSCH[:6]) + g
+
+
 def render(rng, items, stats, canonical=False):
     """the text of the items with insertions at every token boundary"""
     def ins(comments):
@@ -1293,13 +1480,15 @@ def render(rng, items, stats, canonical=False):
                 pass
         last = k == len(items) - 1
         if not last:
-            # between two values: at least one white-space character, then insertions (comments allowed);
-            # a comment must not follow a value directly
-            out += (rng.choice(WSCH[:6]) if not canonical else b" ") + ins(True)
+            # between two values: insertions (comments allowed).  A comment may follow the value directly
+            # ("true%c\nfalse"); otherwise at least one white-space character comes first
+            out += sep_ins(rng, stats, canonical, 0.15 if is_num_word(toks[-1][0]) else 1.0)
         else:
             tail = ins(True)
-            if tail[:1] == b"%":
+            if tail[:1] == b"%" and rng.random() < (0.9 if is_num_word(toks[-1][0]) else 0.6):
                 tail = b" " + tail
+            elif tail[:1] == b"%":
+                stats["comment_adjacent"] = stats.get("comment_adjacent", 0) + 1
             if tail.endswith(b"\n") and rng.random() < 0.3 and b"%" in tail:
                 tail = tail[:-1]          # a comment at the very end need not be terminated
             out += tail
@@ -1392,8 +1581,8 @@ def sp_tok(rng, kind, bl):
             return "c1:%d" % c, b"'\\" + e.encode() + b"'"
         return "c0:%d" % c, b"'" + bytes([c]) + b"'"
     if kind in "sS":
-        data = g_strbytes(rng)
-        nparts = 1 if rng.random() < 0.6 else rng.randint(2, 3)
+        data = g_symword(rng) if kind == "S" and rng.random() < 0.35 else g_strbytes(rng)
+        nparts = 1 if rng.random() < 0.6 else rng.choice([2, 2, 3, 3, 4, 6])
         cuts = sorted(rng.randint(0, len(data)) for _ in range(nparts - 1))
         parts, lo = [], 0
         for hi in cuts + [len(data)]:
@@ -1556,6 +1745,17 @@ def sp_array(rng, stats, depth):
     return "A%d(%s)" % (opn, ",".join(e for e, _ in elems)), text
 
 
+def sp_ends_num(enc):
+    """the text of the encoded item ends in a numeric word"""
+    if enc[0] == "A":
+        return False
+    if enc[0] == "R":
+        return sp_ends_num(enc[enc.index("(") + 1:-1])
+    if enc[0] == "G":
+        enc = "V" + enc.rsplit("~", 1)[1]
+    return enc[1] in "ih" or (enc[1] == "f" and "!" not in enc)
+
+
 def g_spec_case(rng, stats):
     """one sentence of the specification: (encoding, text)"""
     n = rng.choice([0, 1, 1, 2, 2, 3, 3, 4, 5, 6, 8])
@@ -1607,10 +1807,13 @@ def g_spec_case(rng, stats):
     text = g_ins(rng, True, stats)
     for k, (e, t) in enumerate(items):
         text += t
+        # (the driver does not know the layout: comments directly behind a numeric literal, known finding
+        #  C11-K2, are left to the first stream; the driver itself renders every sentence with comments
+        #  directly behind the values where the finding does not apply)
         if k + 1 < len(items):
-            text += rng.choice(WSCH[:6]) + g_ins(rng, True, stats)
+            text += sep_ins(rng, stats, False, 0.0 if sp_ends_num(e) else 1.0)
     tail = g_ins(rng, True, stats)
-    if tail[:1] == b"%":
+    if tail[:1] == b"%" and (rng.random() < 0.6 or (items and sp_ends_num(items[-1][0]))):
         tail = b" " + tail
     return ",".join(e for e, _ in items) or "-", text + tail
 
